@@ -1,6 +1,7 @@
 import RedisVerif.Driver.C01
 import RedisVerif.Model.SkipList
 import RedisVerif.Model.DataStructs
+import RedisVerif.Model.ExecutorCode
 
 /-
   C01 / C17 sub-driver, extended with the DATA-STRUCTURE lines (`DS …`): the transcription models of
@@ -144,11 +145,30 @@ def dsLine (st : DState) : P (DState × String) := do
   | "SREPR" => pure (st, s!"{showSds st.sds} len={st.sds.len} bytes={hexOfBytes st.sds.asBytes}")
   | _ => failure
 
+/-- `<now> CODE GETRANGE k a b ;; <dump>` / `<now> CODE GETSET k v ;; <dump>`: the transcription of
+    the executor function (`Model.ExecutorCode`) answers instead of the specification; the state
+    is threaded exactly as for an ordinary op (answer from the own state, then adopt the dump) -/
+def codeLine (now : Nat) : P (Nat × ExecutorCode.CodeCmd × State) := do
+  let t ← tok
+  let c ← (match t with
+    | "GETRANGE" => do let k ← strKey; let a ← int; let b ← int; pure (ExecutorCode.CodeCmd.getrange k a b)
+    | "GETSET" => do let k ← strKey; let v ← bytesTok; pure (ExecutorCode.CodeCmd.getset k v)
+    | _ => failure)
+  expect ";;"
+  let s ← dump now
+  pure (now, c, s)
+
 def stepLine (st : DState) (l : String) : DState × String :=
   match tokens l with
   | "DS" :: rest =>
     match (dsLine st).run rest with
     | some (r, []) => r
+    | _ => (st, "bad-op")
+  | nowTok :: "CODE" :: rest =>
+    match (nowTok.toNat?).bind (fun now => (codeLine now).run rest) with
+    | some ((now, c, s), []) =>
+      let r := ExecutorCode.stepCode st.redis now c
+      ({ st with redis := s }, s!"{showReply r.2} | {showDump r.1 now} | ro=0")
     | _ => (st, "bad-op")
   | _ =>
     let r := C01.stepLine st.redis l
